@@ -1,10 +1,12 @@
 (* C05  Encoder output is a valid stream that the decoder consumes bit-for-bit.
    Proved: what the tree walk reads is exactly what a prefix-free codeword table
-   writes (decode (encode e) = e, whatever follows), and reads consume exactly
+   writes (decode (encode e) = e, whatever follows) - and the table _make_words
+   builds for any accepted lengths below 32 is prefix-free, so the round trip
+   holds for every such book unconditionally -, and reads consume exactly
    the width written.  The encoder's choices (posts, partition classes, values)
    are inputs; that its packets are consumed exactly is decided per run by the
    strict model decoder on real encoder output (harness/c05enc.c + pd pair). *)
-From VV Require Import SrcFacts Bits Pcm Fl Setup Codebook PacketDec Pack Decoder_lemmas Pack_lemmas.
+From VV Require Import SrcFacts Bits Pcm Fl Setup Codebook PacketDec Pack Decoder_lemmas MakeWords_lemmas Pack_lemmas.
 From Coq Require Import ZArith List Bool.
 Import ListNotations.
 Local Open Scope Z_scope.
@@ -14,6 +16,13 @@ Theorem C05_codeword_roundtrip :
     hwalk (build_tree ws) (word_of w ++ rest) = Some (entry_of w, rest).
 Proof. exact build_tree_decodes. Qed.
 Print Assumptions C05_codeword_roundtrip.
+
+(* the same without hypothesis on the table: any lengths (below 32) the reference code accepts *)
+Theorem C05_codeword_roundtrip_accepted_books :
+  forall lens ws, (forall l, In l lens -> l <= 31) -> make_words lens = Some ws ->
+    forall w rest, In w ws -> hwalk (build_tree ws) (word_of w ++ rest) = Some (entry_of w, rest).
+Proof. intros lens ws Hle Hmw. apply build_tree_decodes. exact (make_words_prefix_free lens ws Hle Hmw). Qed.
+Print Assumptions C05_codeword_roundtrip_accepted_books.
 
 Theorem C05_field_consumed_exactly :
   forall w bs v r, rd w bs = Some (v, r) -> 0 <= v < 2 ^ Z.of_nat w /\ (length r + w = length bs)%nat.
